@@ -381,6 +381,7 @@ func c17WSx(ctx *Ctx, i int, rng *rand.Rand, clientLib, lib string) {
 		writers = 2 + rng.Intn(7)
 	}
 	per := 5 + rng.Intn(20)
+	huge := i%12 == 0 || i%12 == 7 // one gorilla-to-gorilla and one raw-to-gorilla case of every dozen
 	sent := map[string][]byte{}
 	var mu sync.Mutex
 	var wg sync.WaitGroup
@@ -391,6 +392,13 @@ func c17WSx(ctx *Ctx, i int, rng *rand.Rand, clientLib, lib string) {
 			r := rand.New(rand.NewSource(int64(i*1000 + wr)))
 			for k := 0; k < per; k++ {
 				m := genMessage(r, wr*100000+k, k%7 == 3)
+				if huge && wr == 0 && k == 1 {
+					// one very large message (a reply carrying thousands of records): the transport sets
+					// no size; whatever its length it arrives whole, and so does everything after it
+					hugeRaw, _ := json.Marshal([]interface{}{strings.Repeat("0123456789abcdef", 1100000)}) // ~16.8 MiB
+					idRaw, _ := json.Marshal(wr*100000 + k)
+					m = &jsonrpc2.Message{Response: &jsonrpc2.Response{Result: hugeRaw}, ID: idRaw, Version: jsonrpc2.Version}
+				}
 				mu.Lock()
 				sent[string(m.ID)] = canon(m)
 				mu.Unlock()
